@@ -33,6 +33,7 @@ const preludeStd = `(declare-fun lower (B) B)
 (assert (forall ((x B)) (! (and (<= 0 (lead x)) (<= (lead x) (blen x))) :pattern ((lead x)))))
 (declare-fun itoa (Int) B)
 (declare-fun ftoa (F64) B)
+(assert (forall ((x F64) (y F64)) (! (=> (= (ftoa x) (ftoa y)) (= x y)) :pattern ((ftoa x) (ftoa y)))))
 (declare-fun parseInt (B) Int)
 (declare-fun parseIntOk (B) Bool)
 (declare-fun parseFloat (B) F64)
@@ -264,6 +265,10 @@ func (f *frame) stdlib(i *ssa.Call, full string, args []T, st *State, pc string)
 							g.s.lines = append(g.s.lines, decl)
 						}
 						r := g.s.def(i.Name(), T{"(mk false " + app(fn, as...) + ")", "NB"})
+						if constant.StringVal(c.Value) == "%v" && n == 1 {
+							// %v of a float is its shortest round-tripping rendering ftoa (T-STD; ftoa is injective)
+							g.s.assumeUnder(pc, imp("((_ is AFlt) "+as[0]+")", eq("(val "+r.S+")", "(ftoa (a.f "+as[0]+"))")))
+						}
 						if constant.StringVal(c.Value) == "%d" && n == 1 {
 							// %d of an integer value is its decimal rendering (T-STD)
 							g.s.assumeUnder(pc, imp("((_ is AInt) "+as[0]+")", eq("(val "+r.S+")", "(itoa (a.i "+as[0]+"))")))
